@@ -627,3 +627,331 @@ def replay(f):
         check_spec(out, i["spec"], i.get("via", "arg"), kind="replay")
         out.failures = [x for x in out.failures if x["family"] == f["family"]] or out.failures
     return out
+
+
+# ---------------------------------------------------------------- extraction: tables read from the source on every run
+
+def _parse(name):
+    p = os.path.join(CCSDS_DIR, name)
+    return ast.parse(open(p).read(), p)
+
+
+def _func(tree, name):
+    for n in ast.walk(tree):
+        if isinstance(n, ast.FunctionDef) and n.name == name:
+            return n
+    raise RuntimeError(f"function {name} not found")
+
+
+def _const(n):
+    return n.value if isinstance(n, ast.Constant) else None
+
+
+def _alias_eq(fn):
+    """`if/elif <expr> == "A": <name> = "B"`  ->  [("A", "B")]"""
+    out = []
+    for n in ast.walk(fn):
+        if isinstance(n, ast.If) and isinstance(n.test, ast.Compare) and len(n.test.ops) == 1 and isinstance(n.test.ops[0], ast.Eq):
+            a = _const(n.test.comparators[0])
+            if isinstance(a, str) and len(n.body) == 1 and isinstance(n.body[0], ast.Assign) and isinstance(_const(n.body[0].value), str):
+                tgt = n.body[0].targets[0]
+                if isinstance(tgt, ast.Name) and "frame" in tgt.id:
+                    out.append((a, n.body[0].value.value))
+    return sorted(set(out))
+
+
+def _alias_in(fn):
+    """`if <name> in ("A", "B"): <name> = "C"`  ->  (["A","B"], "C") ; ([], "") when absent"""
+    for n in ast.walk(fn):
+        if isinstance(n, ast.If) and isinstance(n.test, ast.Compare) and len(n.test.ops) == 1 and isinstance(n.test.ops[0], ast.In) \
+                and isinstance(n.test.left, ast.Name) and "frame" in n.test.left.id and isinstance(n.test.comparators[0], (ast.Tuple, ast.List)):
+            names = [_const(e) for e in n.test.comparators[0].elts]
+            if len(n.body) == 1 and isinstance(n.body[0], ast.Assign) and isinstance(_const(n.body[0].value), str) \
+                    and isinstance(n.body[0].targets[0], ast.Name) and n.body[0].targets[0].id == n.test.left.id:
+                return names, n.body[0].value.value
+    return [], ""
+
+
+def _wrapped_keys(fn):
+    """keys K such that the function does `X = …["K"]` / `….get("K"…)` and later `if isinstance(X, …): X = [X]`"""
+    src = {}
+    for n in ast.walk(fn):
+        if isinstance(n, ast.Assign) and len(n.targets) == 1 and isinstance(n.targets[0], ast.Name):
+            v = n.value
+            key = None
+            if isinstance(v, ast.Subscript):
+                key = _const(v.slice)
+            elif isinstance(v, ast.Call) and isinstance(v.func, ast.Attribute) and v.func.attr == "get" and v.args:
+                key = _const(v.args[0])
+            if isinstance(key, str):
+                src.setdefault(n.targets[0].id, key)
+    out = set()
+    for n in ast.walk(fn):
+        if isinstance(n, ast.If) and isinstance(n.test, ast.Call) and isinstance(n.test.func, ast.Name) and n.test.func.id == "isinstance" \
+                and isinstance(n.test.args[0], ast.Name) and len(n.body) == 1 and isinstance(n.body[0], ast.Assign):
+            x = n.test.args[0].id
+            b = n.body[0]
+            if isinstance(b.targets[0], ast.Name) and b.targets[0].id == x and isinstance(b.value, ast.List) and len(b.value.elts) == 1 \
+                    and isinstance(b.value.elts[0], ast.Name) and b.value.elts[0].id == x and x in src:
+                out.add(src[x])
+    return out
+
+
+def _elems_lists(fn):
+    out = []
+    for n in ast.walk(fn):
+        if isinstance(n, ast.Assign) and isinstance(n.targets[0], ast.Name) and n.targets[0].id == "elems" and isinstance(n.value, ast.List):
+            out.append([_const(e) for e in n.value.elts])
+    return out
+
+
+def lstr(xs):
+    return "[" + ", ".join(json.dumps(x) for x in xs) + "]"
+
+
+def read_tables():
+    t = {}
+    commons, cov, opm, oem, omm, tdm = (_parse(f) for f in ("commons.py", "cov.py", "opm.py", "oem.py", "omm.py", "tdm.py"))
+    for n in ast.walk(commons):
+        if isinstance(n, ast.Assign) and isinstance(n.targets[0], ast.Name) and n.targets[0].id == "units_dict":
+            t["unitNames"] = [_const(k) for k in n.value.keys]
+    # covariance
+    lc, dc = _func(cov, "load_cov"), _func(cov, "dump_cov")
+    els = _elems_lists(dc)
+    for mod, fns in ((opm, ["_dumps_xml"]), (omm, ["_dumps_xml"]), (oem, ["_dumps_kvn", "_dumps_xml"])):
+        for f in fns:
+            for e in _elems_lists(_func(mod, f)):
+                if e != els[0]:
+                    raise RuntimeError(f"covariance element names differ between writers: {e} vs {els[0]}")
+    t["covElems"] = els[0]
+    for n in ast.walk(lc):
+        if isinstance(n, ast.Assign) and isinstance(n.targets[0], ast.Name) and n.targets[0].id == "values":
+            t["covRead"] = [[_const(c.value.slice) for c in row.elts] for row in n.value.elts]
+    t["covAliasOut"] = _alias_eq(dc)
+    for mod, fns in ((opm, ["_dumps_xml"]), (omm, ["_dumps_xml"]), (oem, ["_dumps_kvn", "_dumps_xml"])):
+        for f in fns:
+            fn = _func(mod, f)
+            # covariance blocks of the XML/OEM writers repeat the alias; the maneuver alias is read separately below
+            if not set(t["covAliasOut"]) <= set(_alias_eq(fn)):
+                raise RuntimeError(f"covariance frame alias differs in {f}")
+    t["covAliasIn"] = _alias_in(lc)
+    # maneuvers
+    mk, mx = _alias_eq(_func(opm, "_dumps_kvn")), _alias_eq(_func(opm, "_dumps_xml"))
+    if mk != mx:
+        raise RuntimeError(f"maneuver frame alias differs between the OPM writers: {mk} vs {mx}")
+    t["manAliasOut"] = mk
+    ik, ix = _alias_in(_func(opm, "_loads_kvn")), _alias_in(_func(opm, "_loads_xml"))
+    if ik != ix:
+        raise RuntimeError(f"maneuver frame alias differs between the OPM readers: {ik} vs {ix}")
+    t["manAliasIn"] = ik
+    # OMM theories
+    for n in ast.walk(_func(omm, "_loads_kvn")):
+        if isinstance(n, ast.Compare) and isinstance(n.ops[0], ast.In) and "MEAN_ELEMENT_THEORY" in ast.dump(n.left):
+            t["ommTheories"] = [_const(e) for e in n.comparators[0].elts]
+    # OEM KVN covariance rows
+    rows = {}
+    for n in ast.walk(_func(oem, "_loads_kvn")):
+        if isinstance(n, ast.If) and isinstance(n.test, ast.Compare) and isinstance(n.test.ops[0], ast.Eq) and "len(values)" in ast.unparse(n.test.left):
+            k = _const(n.test.comparators[0])
+            keys = {}
+            for b in n.body:
+                if isinstance(b, ast.Assign) and isinstance(b.targets[0], ast.Subscript) and isinstance(b.value, ast.Call) and getattr(b.value.func, "id", "") == "Field":
+                    keys[_const(b.value.args[0].slice)] = _const(b.targets[0].slice)
+            if keys:
+                rows[k] = [keys[i] for i in range(k)]
+    t["oemCovRowKeys"] = [rows[k] for k in range(1, 7)]
+    # TDM measurement names (classes actually imported by tdm.py)
+    imported = {a.asname or a.name for n in ast.walk(tdm) if isinstance(n, ast.ImportFrom) for a in n.names}
+    names = []
+    for n in ast.walk(_func(tdm, "encode_measurement")):
+        if isinstance(n, ast.If) and isinstance(n.test, ast.Call) and getattr(n.test.func, "id", "") == "isinstance":
+            cls = n.test.args[1].id
+            for b in n.body:
+                if isinstance(b, ast.Assign) and b.targets[0].id == "name" and cls in imported:
+                    names.append((cls, _const(b.value)))
+    t["tdmNames"] = sorted(set(names), key=names.index)
+    # which XML groups the readers wrap into a list
+    w = {"opm": _wrapped_keys(_func(opm, "_loads_xml")), "omm": _wrapped_keys(_func(omm, "_loads_xml")),
+         "oem": _wrapped_keys(_func(oem, "_loads_xml")), "tdm": _wrapped_keys(_func(tdm, "_loads_xml"))}
+    t["wrap"] = {"wrapOpmManeuver": "maneuverParameters" in w["opm"], "wrapOpmUd": "USER_DEFINED" in w["opm"],
+                 "wrapOmmUd": "USER_DEFINED" in w["omm"], "wrapOemSegment": "segment" in w["oem"],
+                 "wrapOemStateVector": "stateVector" in w["oem"], "wrapOemCov": "covarianceMatrix" in w["oem"],
+                 "wrapTdmSegment": "segment" in w["tdm"], "wrapTdmObservation": "observation" in w["tdm"]}
+    # frames (live objects, through the writers' own expressions)
+    from beyond.frames import get_frame
+    ft = []
+    for f in FRAMES:
+        fr = get_frame(f)
+        ft.append((fr.name, fr.center.name.upper(), fr.orientation.name.upper()))
+    t["frameTable"] = ft
+    return t
+
+
+def extract(ctx):
+    t = read_tables()
+    ctx.tables = t
+    pair = lambda a, b: f"({json.dumps(a)}, {json.dumps(b)})"
+    L = ["/- GENERATED by harness/props/C13.py from beyond/io/ccsds/*.py (AST) and the live frame objects — do not edit. -/",
+         "namespace BeyondVerif.Generated",
+         f"def unitNames : List String := {lstr(t['unitNames'])}",
+         f"def covElems : List String := {lstr(t['covElems'])}",
+         "def covRead : List (List String) := [" + ",\n  ".join(lstr(r) for r in t["covRead"]) + "]",
+         "def covAliasOut : List (String × String) := [" + ", ".join(pair(a, b) for a, b in t["covAliasOut"]) + "]",
+         f"def covAliasIn : List String × String := ({lstr(t['covAliasIn'][0])}, {json.dumps(t['covAliasIn'][1])})",
+         "def manAliasOut : List (String × String) := [" + ", ".join(pair(a, b) for a, b in t["manAliasOut"]) + "]",
+         f"def manAliasIn : List String × String := ({lstr(t['manAliasIn'][0])}, {json.dumps(t['manAliasIn'][1])})",
+         f"def ommTheories : List String := {lstr(t['ommTheories'])}",
+         "def oemCovRowKeys : List (List String) := [" + ",\n  ".join(lstr(r) for r in t["oemCovRowKeys"]) + "]",
+         "def tdmNames : List (String × String) := [" + ", ".join(pair(a, b) for a, b in t["tdmNames"]) + "]",
+         "def frameTable : List (String × String × String) := [" + ", ".join(f"({json.dumps(a)}, {json.dumps(b)}, {json.dumps(c)})" for a, b, c in t["frameTable"]) + "]"]
+    for k, v in t["wrap"].items():
+        L.append(f"def {k} : Bool := {'true' if v else 'false'}")
+    L.append("end BeyondVerif.Generated")
+    ch = core.write_if_changed(os.path.join(core.LEAN, "BeyondVerif", "Generated", "CcsdsTables.lean"), "\n".join(L) + "\n")
+    return ["Generated/CcsdsTables.lean"] if ch else []
+
+
+# ---------------------------------------------------------------- correspondence: compiled model vs real dumps/loads
+
+KEP_FRAMES = {"G50", "EME2000", "GCRF", "MOD", "TOD", "TEME", "CIRF"}   # only decides whether ignored lines are present
+
+
+def hx(s):
+    return "x" + str(s).encode().hex()
+
+
+def _date_txt(us):
+    return (T0 + pytd(microseconds=us)).strftime("%Y-%m-%dT%H:%M:%S.%f")
+
+
+def _cov_toks(c):
+    if c is None:
+        return ["0"]
+    return ["1", "-" if c["frame"] == "own" else c["frame"]] + [f"{c['vals'][i][j] / 1000000.0:0.12e}" for i in range(6) for j in range(i + 1)]
+
+
+def _ud_toks(ud):
+    if ud is None:
+        return ["-"]
+    return [str(len(ud))] + [t for k, v in ud.items() for t in (hx(k), hx(v))]
+
+
+def _sv_toks(c):
+    return [_date_txt(c["epoch"])] + [f"{x / 1000.0:0.6f}" for x in c["state"]]
+
+
+def tokens(c, kep=False, has_tle=False):
+    """message tokens (grammar of lean/BeyondVerif/Drv/C13.lean) of a canonical tuple, numbers printed with the writers' own formats"""
+    t = c["type"]
+    if t == "opm":
+        out = [hx(c["name"]), hx(c["id"]), c["frame"], c["scale"]] + _sv_toks(c)
+        out += ["1"] + ["k"] * 7 if kep else ["0"]
+        out += _cov_toks(c["cov"])
+        out.append(str(len(c["mans"])))
+        for m in c["mans"]:
+            out += [str(int(f"{m['dur']:0.3f}".replace(".", ""))), _date_txt(m["epoch"]), "-" if m["frame"] is None else m["frame"],
+                    "-" if m["comment"] is None else hx(m["comment"])] + [f"{x / 1000.0:.6f}" for x in m["dv"]]
+        return out + _ud_toks(c["ud"])
+    if t == "omm":
+        i, Om, e, om, M, n = c["elems"]
+        deg = math.degrees
+        out = [hx(c["name"]), hx(c["id"]), c["frame"], c["scale"], _date_txt(c["epoch"]),
+               f"{n / (2 * math.pi / 86400.0):0.8f}", f"{e:0.7f}", f"{deg(i):0.4f}", f"{deg(Om):0.4f}", f"{deg(om):0.4f}", f"{deg(M):0.4f}",
+               str(int(c["norad_id"])), str(int(c["element_nb"])), str(int(c["revolutions"])), f"{c['bstar']:.9f}", f"{c['ndot'] / 2:.8f}", f"{c['ndotdot'] / 6:.1f}"]
+        return out + _cov_toks(c["cov"]) + _ud_toks(c["ud"]) + ["1" if has_tle else "0"]
+    if t == "oem":
+        out = [str(len(c["segs"]))]
+        for s in c["segs"]:
+            p0 = s["points"][0]
+            out += [hx(s["name"]), hx(s["id"]), p0["frame"], p0["scale"], s["method"].upper(), "-" if s["order"] is None else str(s["order"]), str(len(s["points"]))]
+            for p in s["points"]:
+                out += _sv_toks(p) + _cov_toks(p["cov"])
+        return out
+    raise ValueError(t)
+
+
+def _obs_toks(o):
+    v = o["value"]
+    txt = {"Range": lambda: f"{v / 1000.0:.6f}", "Azimut": lambda: f"{-math.degrees(v) % 360:.2f}",
+           "Elevation": lambda: f"{math.degrees(v):.2f}", "Doppler": lambda: f"{v:.6f}"}[o["kind"]]()
+    return [o["kind"], str(len(o["path"]))] + [hx(p) for p in o["path"]] + [_date_txt(o["epoch"]), txt]
+
+
+def tdm_tokens_in(c):
+    return [c["obs"][0]["scale"], str(len(c["obs"]))] + [t for o in c["obs"] for t in _obs_toks(o)]
+
+
+def tdm_tokens_out(back):
+    """loaded TDM: scale, number of sets, each set"""
+    from beyond.utils.measures import MeasureSet
+    sets = [back] if isinstance(back, MeasureSet) else list(back)
+    out = [sets[-1][0].date.scale.name if sets and len(sets[-1]) else "", str(len(sets))]
+    for s in sets:
+        c = canon(s)
+        out.append(str(len(c["obs"])))
+        for o in c["obs"]:
+            out += _obs_toks(o)
+    return out
+
+
+def corr_case(out, spec, via, kind):
+    """one object: both encodings, round trip + re-dump, real code vs model"""
+    from beyond.io.ccsds import loads
+    t = spec["type"]
+    obj, kw = build(spec)
+    c0 = canon(obj, spec, kw)
+    kep = t == "opm" and spec["kep"] and spec["frame"] in KEP_FRAMES
+    has_tle = t == "omm" and "tle" in obj._data
+    toks = tdm_tokens_in(c0) if t == "tdm" else tokens(c0, kep=kep, has_tle=has_tle)
+    lines, reals = [], []
+    for fmt in ("kvn", "xml"):
+        lines.append(f"c13 rt {t} {fmt} " + " ".join(toks))
+        back = None
+        try:
+            text = Fmt(fmt, via).dumps(obj, **kw)
+            try:
+                back = loads(text)
+                if t == "tdm":
+                    reals.append("ok " + " ".join(tdm_tokens_out(back)))
+                else:
+                    reals.append("ok " + " ".join(tokens(canon(back, spec), kep=False, has_tle=t == "omm" and "tle" in back._data)))
+            except Exception as e:
+                reals.append(f"err load {type(e).__name__}")
+        except Exception as e:
+            reals.append(f"err dump {type(e).__name__}")
+        for f2 in ("kvn", "xml"):
+            lines.append(f"c13 redump {t} {fmt} {f2} " + " ".join(toks))
+            if back is None:
+                reals.append(reals[-1] if reals[-1].startswith("err") else "?")
+                continue
+            try:
+                Fmt(f2, "arg").dumps(back)
+                reals.append("ok")
+            except Exception as e:
+                reals.append(f"err redump {type(e).__name__}")
+    return lines, reals
+
+
+def correspondence(ctx):
+    out = Outcome()
+    rng = ctx.rng
+    n = {"opm": ctx.n(60, 1500), "omm": ctx.n(40, 1000), "oem": ctx.n(40, 1000), "tdm": ctx.n(50, 1200)}
+    cases = []
+    for t, k in n.items():
+        for i in range(k):
+            spec = GENS[t](rng)
+            via = "config" if i % 5 == 4 else "arg"
+            lines, reals = corr_case(out, spec, via, t)
+            cases.append((spec, via, lines, reals))
+    model = core.Driver().run([l for c in cases for l in c[2]])
+    k = 0
+    for spec, via, lines, reals in cases:
+        for line, real in zip(lines, reals):
+            m = model[k]
+            k += 1
+            op = " ".join(line.split(" ", 5)[1:4 if line.split()[1] == "rt" else 5])
+            out.count(key=line[:300], nontrivial=True, kind=op, result=real.split(" ")[0] + ("" if real.startswith("ok") else ":" + real.split(" ")[-1]))
+            if m != real:
+                out.fail("ccsds-model", f"model and implementation differ on `{op}`", {"spec": spec, "via": via, "op": op}, observed=real[:600], expected=m[:600])
+        out.sample({"line": lines[0][:200], "reply": reals[0][:200]}, limit=3)
+    return out
